@@ -287,7 +287,8 @@ def exec_history(ctx, case):
 
 
 def avro_placeholder_mechanism(view, hist, errors, problems):
-    """flush() on an Avro writer that has no schema yet starts the file with a placeholder schema named 'empty'; the
+    """Mechanism repaired by a33e342 (listed 'fixed', so it suppresses nothing; the key only names the witness):
+    flush() on an Avro writer that has no schema yet starts the file with a placeholder schema named 'empty'; the
     first write() afterwards raises and later ones are encoded with the placeholder.  Signature: a flush precedes the
     first write, that first write raised, the file's schema is the placeholder, and the only complaints are mismatches."""
     first_w = hist.index("w")
@@ -355,6 +356,7 @@ def exec_split(ctx, case):
 
     concat_reader, concat_indep, raw = [], [], []
     unclassified_part_problem = False
+    held = True
     for pos, (i, nm) in enumerate(parts):
         p = os.path.join(d, nm)
         view = io17.inspect_file(fam, codec, p, scheme=read_scheme)
@@ -370,6 +372,7 @@ def exec_split(ctx, case):
             key = None
             if fam == "stream" and last and end == "c" and stream_empty_mechanism(view, problems) and n == sum(len(x) for x in concat_reader):
                 key = "stream-close-without-flush-empty"  # trailing part opened after the last full one (or the only part, N = 0)
+            held = False
             report(ctx, key, "split part %s" % nm, problems, dict(extra, part=nm, files=names, size=view.size))
             if key:
                 ctx.event("b_trailing_empty_known")
@@ -386,7 +389,6 @@ def exec_split(ctx, case):
             with open(p, "rb") as f:
                 raw.append(f.read())
     flat = [o for part in concat_reader for o in part]
-    held = True
     if unclassified_part_problem:
         held = False  # already reported; the concatenation of the remaining parts would only repeat it
     else:
